@@ -4,6 +4,7 @@ go 1.22.0
 
 require (
 	k8s.io/apimachinery v0.31.1
+	k8s.io/cli-runtime v0.31.1
 	k8s.io/klog/v2 v2.130.1
 	sigs.k8s.io/cli-utils v0.0.0
 )
@@ -69,7 +70,6 @@ require (
 	gopkg.in/yaml.v2 v2.4.0 // indirect
 	gopkg.in/yaml.v3 v3.0.1 // indirect
 	k8s.io/api v0.31.1 // indirect
-	k8s.io/cli-runtime v0.31.1 // indirect
 	k8s.io/client-go v0.31.1 // indirect
 	k8s.io/component-base v0.31.1 // indirect
 	k8s.io/kube-openapi v0.0.0-20240228011516-70dd3763d340 // indirect
